@@ -94,6 +94,7 @@ harness("name_padwing_4", "midas::PadwingBankName::try_from(&str)", True, bound=
 harness("name_padwing_reject", "midas::PadwingBankName::try_from(&str) on every other 4-byte string", True, bound="all 4-byte strings that are not \"PC\" + two digits", timeout=1500)
 harness("name_fixed_4", "Trigger/Trb3/Seq2/McVertex/ChronoboxBankName::try_from(&str)", True, bound="all 4-byte strings", timeout=1500)
 harness("name_main_event_4", "MainEventBankName / Alpha16BankName dispatch", True, bound="all 4-byte strings", timeout=3000)
+harness("name_main_event_dispatch", "MainEventBankName::try_from on 4-byte names not starting with B, C or P", True, bound="all 4-byte strings whose first byte is not B, C or P", timeout=1500)
 harness("name_other_lengths", "bank-name parsers on strings of 0..=8 bytes except 4", False, bound="string length <= 8 bytes", timeout=3000)
 harness("adc_len016", "AdcV3Packet::try_from on [u8;16]", False, bound="length 16 (suppressed form), all bytes", decode=bytes_op("adc", 16))
 harness("adc_short_lengths", "AdcV3Packet::try_from on lengths 0..=35 except 16", False, bound="lengths <= 35", decode=bytes_len_op("adc", 35))
